@@ -294,6 +294,32 @@ Theorem C18_root_inv_entry_by_dim_refuted : forall (F : rcfType),
     rd (RA F) (sample_entry (RA F) 1 bs n (root_inv_entry iv roots) z) p.
 Proof. exact: root_inv_entry_by_dim_refuted. Qed.
 
+(* The root METHOD is chosen from the cache state: _choose_root_method returns symeig / diagonalization / lanczos when such
+   an entry is cached (in that order), else cholesky or lanczos by size and fast_computations; root_decomposition() then builds
+   evecs * sqrt(clamp_min(evals, 0)) from the eigendecomposition, the Cholesky factor (or, when the factorization raises, the
+   symeig root), or the Lanczos root.  For EVERY cache state, setting and size the root returned is a true root of every batch
+   member, given that the ingredients are what their routines promise (C06): eigendecompositions of every member with
+   eigenvalues >= 0, a valid Lanczos root, symmetric members with positive pivots when Cholesky does not raise. *)
+Theorem C18_every_method_true_root : forall (F : rcfType) (bs : seq nat) n (A : seq F) (st : sett) (c : cstate)
+    (sym dia : seq F * seq F) (lz : nat * seq F) (chol_fails : bool),
+  eig_valid bs n A sym -> eig_valid bs n A dia -> root_valid bs n A lz.1 lz.2 ->
+  (chol_fails = false -> chol_ok (prodn bs) n A) ->
+  let rR := method_root (RA F) (@clamp0 F) (choose_root_method st c n) (prodn bs) n A sym dia lz chol_fails in
+  root_valid bs n A rR.1 rR.2.
+Proof. move=> F bs n A st c sym dia lz cf; exact: every_method_root. Qed.
+
+Theorem C18_eig_root_valid : forall (F : rcfType) (bs : seq nat) n (A : seq F) (wQ : seq F * seq F),
+  eig_valid bs n A wQ -> root_valid bs n A n (eig_root (RA F) (@clamp0 F) (prodn bs) n wQ.1 wQ.2).
+Proof. move=> F bs n A wQ; exact: eig_root_valid. Qed.
+
+(* The eigenvalue filter must act per member: `evals > evals.max() * n * eps` with the maximum over the whole batch gives a
+   zero root to a member that is small relative to another one — the class of seed 11. *)
+Theorem C18_eig_root_batch_cutoff_refuted : forall (F : rcfType),
+  exists (bs : seq nat) (n : nat) (A : seq F) (wQ : seq F * seq F) (wmax eps : F),
+    [/\ 0 < eps, eig_valid bs n A wQ, (forall x, x \in wQ.1 -> x <= wmax) &
+        ~ root_valid bs n A n (eig_root (RA F) (fun x => if wmax * n%:R * eps < x then x else 0) (prodn bs) n wQ.1 wQ.2)].
+Proof. exact: eig_root_batch_cutoff_refuted. Qed.
+
 (* non-vacuity: a history mixing all step kinds on a batch of two 2x2 members (I and 4 I) satisfies steps_valid and
    leaves an entry *)
 Section NonVacuousHistory.
